@@ -101,6 +101,7 @@ pub const W_DUP: [usize; 10] = [36, 38, 40, 50, 88, 92, 92, 95, 98, 99];
 pub fn graph_scenario(idx: usize, rng: &mut Rng, o: &GraphOpts, family: &str) -> World {
     let mut w = World::new(o.enc, o.obs, idx, family);
     w.log_patches = o.log_patches;
+    w.desc_actors = family == "ids";
     let mut next_actor: u8 = 1;
     let n0 = 2 + rng.below(2);
     for _ in 0..n0 {
@@ -122,6 +123,7 @@ pub fn graph_scenario(idx: usize, rng: &mut Rng, o: &GraphOpts, family: &str) ->
     }
     let wt = o.weights;
     let cursors = matches!(family, "cursor" | "cursortext");
+    let ids = family == "ids";
     for _ in 0..o.steps {
         if w.dead {
             break;
@@ -130,6 +132,13 @@ pub fn graph_scenario(idx: usize, rng: &mut Rng, o: &GraphOpts, family: &str) ->
         if cursors && rng.chance(1, 3) {
             let r = rng.below(n);
             w.take_cursors(r, rng, 2);
+        }
+        if ids && rng.chance(1, 3) {
+            let r = rng.below(n);
+            w.take_ids(r);
+            if rng.chance(1, 2) {
+                w.probe_ids(rng.below(n));
+            }
         }
         let r = rng.below(n);
         let total = w.known.len();
@@ -260,6 +269,32 @@ pub fn graph_scenario(idx: usize, rng: &mut Rng, o: &GraphOpts, family: &str) ->
                         last["afterload"] = serde_json::json!(true);
                     }
                 }
+            }
+        }
+    }
+    if family.starts_with("badargs") {
+        for r in 0..w.n() {
+            if !w.dead {
+                crate::badargs::badcalls(&mut w, r, rng);
+            }
+        }
+    }
+    if family == "migrate" {
+        for r in 0..w.n() {
+            if !w.dead {
+                w.migrate(r);
+            }
+        }
+    }
+    if ids {
+        for r in 0..w.n() {
+            if !w.dead {
+                w.take_ids(r);
+            }
+        }
+        for r in 0..w.n() {
+            if !w.dead {
+                w.probe_ids(r);
             }
         }
     }
